@@ -841,8 +841,10 @@ def finish(profile, tier, seed, nruns, t0, agg, digests, hist, viols, samples, h
         },
         "assumptions": profile.assumptions,
     }
-    os.makedirs(os.path.join(VERIF, "evidence"), exist_ok=True)
-    with open(os.path.join(VERIF, "evidence", f"{prop}.json"), "w") as f:
+    # self-tests (mutants, other seeds) point the evidence elsewhere: evidence/ holds only runs against /repo itself
+    evdir = os.environ.get("DSIM_EVIDENCE_DIR") or os.path.join(VERIF, "evidence")
+    os.makedirs(evdir, exist_ok=True)
+    with open(os.path.join(evdir, f"{prop}.json"), "w") as f:
         json.dump(ev, f, indent=1, default=_default)
     print(f"[{prop}/{profile.name}] tier={tier} seed={seed} runs={runs_done}/{nruns} steps={agg.get('steps', 0)} "
           f"distinct_histories={len(hist)} nontrivial={nontriv} wall={wall:.1f}s workers={workers}")
